@@ -51,6 +51,13 @@ def tokens(rows, cols, full=True):
           ESC + '[5;6z', ESC + '[5;6;7z', ESC + '[5;z', ESC + '[5;6;z', ESC + '[?z', ESC + '[?5z', ESC + '[\x18',
           ESC + '[5\x1a', ESC, ESC + '[', ESC + '[5', ESC + '[5;', ESC + '[5;6', ESC + '[?', ESC + '[?4',
           ESC + '[5;6;', ESC + '[5;6;7', ESC + '[12;', ESC + '(', ESC + '#']
+    # the finals the FSM knows, with fewer / more parameters than they take, and with empty parameters
+    if full:
+        for f in 'ABCDJKHfrmqlh':
+            for ps in ('1;2;3', '4;3;2;1', '1;2', '5', ';', ';5', '5;', '1;2;3;4;5;6', '1;;2'):
+                t.append(ESC + '[' + ps + f)
+    else:
+        t += [ESC + '[1;2;3H', ESC + '[3;2;1f', ESC + '[2;1;2r', ESC + '[1;2;3A', ESC + '[1;2A', ESC + '[2H', ESC + '[;2H', ESC + '[2;r']
     seen, out = set(), []
     for x in t:
         if x not in seen:
